@@ -158,6 +158,13 @@ theorem expanded_comments_in_order_now (ops : Ops σ) (p : List (Core σ)) (st :
     (flatItems [] st.root).filter isComment = (logBody Quirks.now ops {} p []).filter isComment :=
   expanded_comments_in_order Quirks.now rfl rfl rfl ops p st h
 
+/-- the FULL specification (media merging included): comments of the output = comments of the
+evaluation log, in source order (paths compared after merging adjacent `@media` steps) -/
+theorem expanded_comments_in_order_spec (ops : Ops σ) (hassoc : Assoc ops) (p : List (Core σ)) (st : St σ)
+    (h : emitTop Quirks.spec ops p = .ok st) :
+    (NV ops (flatItems [] st.root)).filter isComment = (NV ops (logBody Quirks.spec ops {} p [])).filter isComment := by
+  rw [(C20.bubble_preserves_order_spec ops hassoc p st h).1]
+
 /-- comments of an output tree in document order -/
 def bodyComments : List (BodyItem Nat) → List Nat
   | [] => []
